@@ -190,14 +190,28 @@ def run_config(chk, config):
         vi, p = result_parts(v)
         if vi != 0 or not engr.ent(s, c_eq(selfv.vidx, Lin.const(hidden_idx))):
             continue
-        evs = [e for e in s.events() if e[0] in ("read", "sub")]
-        if len(evs) >= 2 and evs[0][0] == "read" and evs[0][2] == 2 and evs[1][0] == "sub":
-            d = evs[0][5]
-            at0 = isinstance(d, tuple) and len(d) >= 5 and isinstance(d[3], Lin) and d[3] == Lin.const(0)
-            if at0 and engr.ent(s, c_eq(evs[1][2].lin + 6, evs[0][3].lin)):
-                okf += 1
-            else:
-                okf = -10 ** 6
+        from rules.c20 import be16_of_buffer
+        evs = [e for e in s.events() if e[0] in ("read", "sub", "skip")]
+        subs = [e for e in evs if e[0] == "sub"]
+        if not subs:
+            continue
+        sub = subs[0]
+        before = evs[:evs.index(sub)]
+        total = None
+        if before and before[0][0] == "read" and before[0][2] == 2:
+            d = before[0][5]
+            if isinstance(d, tuple) and len(d) >= 5 and isinstance(d[3], Lin) and d[3] == Lin.const(0):
+                total = before[0][3].lin
+        if total is None:
+            # length taken by indexing the buffer: total = 256*buf[0] + buf[1]
+            cand = sub[2].lin + 6
+            if be16_of_buffer(engr, cand):
+                total = cand
+        start_ok = len(sub) > 5 and isinstance(sub[5], Lin) and engr.ent(s, c_eq(sub[5], Lin.const(2)))
+        if total is not None and start_ok and engr.ent(s, c_eq(sub[2].lin + 6, total)):
+            okf += 1
+        else:
+            okf = -10 ** 6
     # reveal accepts every original length that fits (what hide produces always fits)
     over = []
     n_len_err = 0
